@@ -1657,10 +1657,23 @@ def gen_arg(rng, depth=0):
         shape = tuple(int(x) for x in rng.integers(1, 4, size=int(rng.integers(1, 4))))
         raw = rng.normal(size=shape) * 5
         if dt in (np.complex128, np.complex64):
-            return (raw + 1j * rng.normal(size=shape)).astype(dt)
-        if dt is np.bool_:
-            return raw > 0
-        return raw.astype(dt)
+            arr = (raw + 1j * rng.normal(size=shape)).astype(dt)
+        elif dt is np.bool_:
+            arr = raw > 0
+        else:
+            arr = raw.astype(dt)
+        # the same values in another memory layout (Fortran order, a transposed view, every second element of a larger buffer)
+        lay = rng.random()
+        if lay < 0.2:
+            arr = np.asfortranarray(arr)
+        elif lay < 0.35:
+            arr = np.ascontiguousarray(arr.T).T
+        elif lay < 0.45:
+            big = np.zeros(tuple(2 * d for d in arr.shape), dtype=arr.dtype)
+            view = big[tuple(slice(None, None, 2) for _ in arr.shape)]
+            view[...] = arr
+            arr = view
+        return arr
     if u < 0.92:
         return None
     if depth >= 2:
